@@ -9,15 +9,21 @@ pub fn splitmix64(state: &mut u64) -> u64 {
     z ^ (z >> 31)
 }
 
-/// Mixes several integers into one seed.
+#[inline]
+fn finalize(mut z: u64) -> u64 {
+    z = (z ^ (z >> 30)).wrapping_mul(0xBF58_476D_1CE4_E5B9);
+    z = (z ^ (z >> 27)).wrapping_mul(0x94D0_49BB_1331_11EB);
+    z ^ (z >> 31)
+}
+
+/// Mixes several integers into one seed (every part goes through a full avalanche).
 pub fn mix(parts: &[u64]) -> u64 {
-    let mut s = 0x243F_6A88_85A3_08D3u64;
-    let mut out = 0;
-    for p in parts {
-        s ^= *p;
-        out = splitmix64(&mut s);
+    let mut h = 0x243F_6A88_85A3_08D3u64;
+    for (n, p) in parts.iter().enumerate() {
+        let x = finalize(p.wrapping_add(0x9E37_79B9_7F4A_7C15u64.wrapping_mul(n as u64 + 1)));
+        h = finalize(h.rotate_left(23) ^ x).wrapping_add(0xD6E8_FEB8_6659_FD93);
     }
-    out
+    finalize(h)
 }
 
 #[derive(Clone, Debug)]
